@@ -82,6 +82,9 @@ pub struct C12Scenario {
     /// the temp directory the environment names (TMPDIR, TMP, TEMP) does not exist
     #[serde(default)]
     pub tmp_missing: bool,
+    /// != 0: environment variables the process does not have may appear to be set (per name)
+    #[serde(default)]
+    pub env_fuzz: u64,
     pub pid: i32,
     pub schedule: Vec<Round>,
     #[serde(default)]
@@ -117,6 +120,9 @@ pub struct JobResult {
     pub fired: Vec<Fired>,
     #[serde(default)]
     pub log: Vec<String>,
+    /// environment variables the job asked for
+    #[serde(default)]
+    pub env_reads: Vec<String>,
     /// number of times the interleaving scheduler switched away from this job
     pub preemptions: u32,
 }
